@@ -254,3 +254,19 @@ def risky_info(run, spec, datasets, info=None):
   except Exception:  # pylint: disable=broad-except
     pass
   return info
+
+
+def has_hybrid_tensorwise_dwconv(content):
+  """Mechanism of the open finding KF-DWCONV-DRQ-TENSORWISE, read off the flatbuffer: a DEPTHWISE_CONV_2D with float input and an
+  int8 filter carrying ONE scale.  The hybrid kernel indexes a per-channel scale array, so it reads past the single scale:
+  its output depends on whatever follows in memory and is not reproducible between interpreter instances."""
+  m = models.read(content)
+  for sg in m.subgraphs:
+    for op in sg.operators:
+      if m.operatorCodes[op.opcodeIndex].builtinCode != models.BO.DEPTHWISE_CONV_2D:
+        continue
+      x, w = sg.tensors[int(op.inputs[0])], sg.tensors[int(op.inputs[1])]
+      q = w.quantization
+      if x.type == models.TT.FLOAT32 and w.type == models.TT.INT8 and q is not None and q.scale is not None and len(q.scale) == 1:
+        return True
+  return False
